@@ -11,25 +11,73 @@ From CM Require Import Model.MiniPy Model.PySem Model.Rewrites Spec.RewritesSpec
 From Coq Require Import String.
 
 Definition incl_str (a b : list str) : Prop := forall x, List.In x a -> List.In x b.
+Lemma gen_call_hit' cfg f elt x it rest :
+  gen_hit cfg f (EListComp elt x it :: rest) = true -> gen_call cfg f (EListComp elt x it :: rest) = ECall f [EGen false elt x it].
+Proof. unfold gen_hit, gen_call. intros ->. reflexivity. Qed.
 
 (** * C07: idempotence *)
 (** use-generator: a rewritten call is `f(<generator>)`, which the codemod leaves alone; calls are never entered *)
-Lemma gen_call_idem cfg f args : rw_generator cfg (gen_call cfg f args) = gen_call cfg f args.
+Definition is_listcomp (e : expr) : bool := match e with EListComp _ _ _ => true | _ => false end.
+Lemma gen_call_not_listcomp cfg f args : is_listcomp (gen_call cfg f args) = false.
 Proof.
-  destruct args as [|a rest]; [reflexivity|].
-  destruct a; try reflexivity. unfold gen_call.
-  destruct (gen_func f && (negb (ug_single_arg cfg) || match rest with [] => true | _ :: _ => false end)) eqn:C; [reflexivity|].
-  cbn [rw_generator gen_call]. rewrite C. reflexivity.
+  unfold gen_call. destruct args as [|a r]; [reflexivity|]. destruct a; try reflexivity.
+  destruct (gen_func f && (negb (ug_single_arg cfg) || match r with [] => true | _ :: _ => false end)); reflexivity.
 Qed.
-Lemma C07_kernel_generator_idempotent cfg : forall e, rw_generator cfg (rw_generator cfg e) = rw_generator cfg e.
+Lemma rw_generator_is_listcomp cfg e : is_listcomp (rw_generator cfg e) = is_listcomp e.
 Proof.
-  induction e using expr_ind'; cbn [rw_generator]; try reflexivity;
+  destruct e; try reflexivity; cbn [rw_generator].
+  - destruct (ug_nested cfg); reflexivity.
+  - destruct (gen_hit cfg f args); [destruct (ug_updated_parts cfg); apply gen_call_not_listcomp|destruct (ug_nested cfg); reflexivity].
+Qed.
+Lemma gen_hit_map cfg f args : gen_hit cfg f (map (rw_generator cfg) args) = gen_hit cfg f args.
+Proof.
+  destruct args as [|a rest]; [reflexivity|]. cbn [map]. unfold gen_hit.
+  pose proof (rw_generator_is_listcomp cfg a) as H.
+  destruct (rw_generator cfg a), a; cbn in H; try discriminate; try reflexivity.
+  destruct rest; reflexivity.
+Qed.
+(** the configurations under which a first run leaves nothing for a second one: either calls are never entered
+    (pinned, first repair), or nested rewrites are kept AND the generator is built from the updated comprehension *)
+Definition generator_stable (cfg : generator_cfg) : bool := negb (ug_nested cfg) || ug_updated_parts cfg.
+Lemma C07_kernel_generator_idempotent cfg : generator_stable cfg = true ->
+  forall e, rw_generator cfg (rw_generator cfg e) = rw_generator cfg e.
+Proof.
+  intros St.
+  induction e as [x|c|t|es H|es H|es H|r m args H|f args H|par op e1 e2 IHe1 IHe2|par e IHe|par e rest IHe H|e1 x e2 IHe1 IHe2|par e1 x e2 IHe1 IHe2|e1 e2 IHe1 IHe2|n e IHe]
+    using expr_ind'; cbn [rw_generator]; try reflexivity;
     try (f_equal; rewrite map_map; apply map_ext_in; intros a Ha; rewrite Forall_forall in H; apply H, Ha);
     try (rewrite IHe1, IHe2; reflexivity); try (rewrite IHe; reflexivity).
-  - (* ECall *) apply gen_call_idem.
+  - (* EMeth *)
+    destruct (ug_nested cfg) eqn:Nst; cbn [rw_generator]; rewrite Nst; [|reflexivity].
+    f_equal. rewrite map_map. apply map_ext_in. intros a Ha. rewrite Forall_forall in H. apply H, Ha.
+  - (* ECall *)
+    destruct (gen_hit cfg f args) eqn:Hit.
+    + destruct args as [|a rest]; [discriminate|]. destruct a as [| | | | | | | | | | |elt x it| | |]; try discriminate.
+      inversion H as [|? ? Ha _]; subst. cbn [rw_generator] in Ha. injection Ha as Helt Hit'.
+      assert (Hit2 : gen_hit cfg f (map (rw_generator cfg) (EListComp elt x it :: rest)) = true) by (rewrite gen_hit_map; exact Hit).
+      unfold generator_stable in St.
+      destruct (ug_updated_parts cfg) eqn:Pt.
+      * cbn [map rw_generator] in *. rewrite gen_call_hit' by exact Hit2.
+        cbn [rw_generator gen_hit]. destruct (ug_nested cfg); [|reflexivity].
+        cbn [map rw_generator]. rewrite Helt, Hit'. reflexivity.
+      * rewrite orb_false_r in St. apply negb_true_iff in St.
+        rewrite gen_call_hit' by exact Hit. cbn [rw_generator gen_hit]. rewrite St. reflexivity.
+    + destruct (ug_nested cfg) eqn:Nst; cbn [rw_generator].
+      * rewrite gen_hit_map, Hit, Nst. f_equal. rewrite map_map. apply map_ext_in. intros a Ha. rewrite Forall_forall in H. apply H, Ha.
+      * rewrite Hit, Nst. reflexivity.
   - (* ECmp *) rewrite IHe. f_equal. rewrite map_map. apply map_ext_in. intros cb Hcb. cbn [fst snd].
     rewrite Forall_forall in H. rewrite (H cb Hcb). reflexivity.
 Qed.
+(** with `return updated_node` alone the generator is still built from the ORIGINAL comprehension, so a rewrite inside it is
+    only made by a second run:  any([any([v5 for v5 in v4]) for v4 in v3]) -> any(any([..]) for ..) -> any(any(..) for ..)
+                                                                         [reproduced on the real codemod with the one-line patch] *)
+Definition w_gen_nested : expr :=
+  ECall BAny [EListComp (ECall BAny [EListComp (EName 5) 5 (EName 4)]) 4 (EName 3)].
+Lemma C07_kernel_generator_nested_refuted :
+  wf w_gen_nested = true /\
+  rw_generator nested_generator (rw_generator nested_generator w_gen_nested) <> rw_generator nested_generator w_gen_nested /\
+  rw_generator nested_updated_generator (rw_generator nested_updated_generator w_gen_nested) = rw_generator nested_updated_generator w_gen_nested.
+Proof. vm_compute. split; [reflexivity|split; [discriminate|reflexivity]]. Qed.
 
 (** use-set-literal builds the set display from the ORIGINAL elements, so a nested `set([...])` survives the first run
     and is rewritten by the second:  set([len(set([1]))]) -> {len(set([1]))} -> {len({1})}          [reproduced on /repo] *)
